@@ -54,5 +54,18 @@ example : (search 2 (some (.plus (.var 1) (-3))) Policy.fifo 40 [.linNe [1, -1] 
             (fun i => if i = 0 then [0, 1, 2, 3] else if i = 1 then [0, 1, 2, 3] else [0])).solutions.getLast?
     = some [1, 0] := by decide
 
+/-- **C04 without the fuel proviso**: for duplicate-free declared domains every fuel
+`≥ m.fuelBound` suffices (`IModel.search_terminates`), so branch and bound ends at a proven optimum
+for every well-formed model. -/
+theorem C04_bnb_optimal_total (m : IModel) (h : m.WF) (hnd : ∀ d ∈ m.doms, d.Nodup) (o : IView) (ho : o.WF)
+    (hon : ∀ i, o.underlying = some i → i < m.n) (pol : Policy) (fuel : Nat) (hf : m.fuelBound ≤ fuel) :
+    ((search m.n (some o) pol fuel m.ps m.store).solutions.map (evalL o)).Pairwise (· > ·) ∧
+    (∀ v ∈ (search m.n (some o) pol fuel m.ps m.store).solutions, ∃ a, v = proj m.n a ∧ m.IsSol a) ∧
+    match (search m.n (some o) pol fuel m.ps m.store).solutions.getLast? with
+    | none => ∀ a, ¬ m.IsSol a
+    | some v => ∀ a, m.IsSol a → evalL o v ≤ o.eval a :=
+  C04_bnb_optimal m h o ho hon pol fuel
+    (m.search_terminates h hnd (some o) (fun _ e => by cases e; exact ho) pol fuel hf)
+
 end C04
 end Selen
